@@ -77,6 +77,12 @@ Theorem C29_paramkey_same_path : forall p q, paramkey p = paramkey q -> forall e
 Proof. exact paramkey_same_path. Qed.
 Print Assumptions C29_paramkey_same_path.
 
+(* e.j[p] == e.j[q] between two JSON items (both sides are JSON texts on SQLite): for two ints the texts are equal iff the ints are
+   (decimal printing is injective); ordering (<) of two items is the recorded finding json-items-ordered-as-text *)
+Theorem C29_items_eq_ints : forall a b, json_items_eq (JInt a) (JInt b) = (a =? b).
+Proof. exact items_eq_ints. Qed.
+Print Assumptions C29_items_eq_ints.
+
 Example C29_nonvacuous :
   parse_path ascii_only (json_path ascii_only [KKey [97]; KIdx (-12); KKey [100; 46; 101]; KKey []; KKey [49; 97]])
     = Some [KKey [97]; KIdx (-12); KKey [100; 46; 101]; KKey []; KKey [49; 97]]
